@@ -270,13 +270,17 @@ func scC06(r *Run) {
 		if !q.hint {
 			vals := []string{}
 			if q.junk {
-				vals = append(vals, Pick(T, "_HLS_msn=abc", "_HLS_msn=-1", "_HLS_msn=1&_HLS_part=x", "_HLS_msn=99999999999999999999", "_HLS_msn=1.5"))
+				// (a decimal-integer is digits only: prefixes, signs, separators and spaces make it unparsable)
+				vals = append(vals, Pick(T, "_HLS_msn=abc", "_HLS_msn=-1", "_HLS_msn=1&_HLS_part=x", "_HLS_msn=99999999999999999999", "_HLS_msn=1.5",
+					"_HLS_msn=0x1", "_HLS_msn=0b1", "_HLS_msn=1_0", "_HLS_msn=%2B1", "_HLS_msn=1&_HLS_part=0x0", "_HLS_msn=1&_HLS_part=0o0", "_HLS_msn=%201"))
 			} else {
+				// leading zeros do not change a decimal-integer
+				numFmt := Pick(T, "%d", "%d", "%d", "%03d", "0%d")
 				if q.hasM {
-					vals = append(vals, fmt.Sprintf("_HLS_msn=%d", q.m))
+					vals = append(vals, fmt.Sprintf("_HLS_msn="+numFmt, q.m))
 				}
 				if q.hasP {
-					vals = append(vals, fmt.Sprintf("_HLS_part=%d", q.p))
+					vals = append(vals, fmt.Sprintf("_HLS_part="+numFmt, q.p))
 				}
 			}
 			switch T.Intn(8) {
@@ -293,6 +297,10 @@ func scC06(r *Run) {
 			if T.Chance(1, 4) {
 				q.extra = Pick(T, "token=abc", "a=1&b=2")
 				vals = append(vals, q.extra)
+			}
+			// delivery directives this server does not implement are still directives (reserved _HLS_ prefix)
+			if T.Chance(1, 6) {
+				vals = append(vals, Pick(T, "_HLS_push=0", "_HLS_report=..%2Fother.m3u8", "_HLS_primary_id=7", "_HLS_start_offset=3"))
 			}
 			// a directive name may arrive percent-encoded: the server decodes names, so it still is a directive
 			if T.Chance(1, 5) {
